@@ -27,7 +27,7 @@ E_ExactSeeds == {<<0, 0, 0, 0, " ">>, <<1, 2, 3, 4, "#">>, <<2, 0, 1, 0, "">>, <
                  <<0 - 1, 0, 0, 0, " ">>, <<0, 0, 0, 0 - 1, "#">>, <<1, 0 - 2, 0 - 1, 1, " ">>}
 E_RebuildInts == {0 - 1, 0, 1, 5}
 E_Fills == {" ", "#", ""}
-E_SizeSeeds == {<<1, 1>>, <<3, 2>>, <<0, 1>>, <<2, 0 - 1>>, <<0, 0>>}
+E_SizeSeeds == {<<1, 1>>, <<3, 2>>, <<0, 1>>, <<3, 0>>, <<2, 0 - 1>>, <<0, 0>>}
 E_SizeReplace == {0, 3}
 
 E_ColorSeeds == {<<0, 0, 0, 0>>, <<255, 255, 255, 255>>, <<1, 15, 16, 127>>, <<128, 254, 0, 255>>,
